@@ -212,55 +212,122 @@ def rule_sources(chk, tree):
             chk.decide(ok, 'all-arrays-are-sources', nm, node=c, file=INT, func='_compile_acceleration_eval',
                        detail_bad='%s(%s): expected %s - an array left out of the sources does not contribute to the interpolation' % (nm, kw, want), detail_ok=want)
     chk.floor('default equation constructions', n, 7)
-    pa = M.find_func(icls, '_create_particle_array')
-    c = [x for x in M.calls(pa) if M.call_name(x) == 'get_particle_array']
-    ld_pa = N.local_defs(pa.body)
-    kw = dict((k.arg, compact(N.inline(k.value, ld_pa))) for k in c[0].keywords) if c else {}
-    pr_ = [a.arg for a in pa.args.args][1:4] + ['?', '?', '?']
-    chk.decide(kw.get('name') == "'interpolate'" and all(any(kw.get(ax) == f_ % pr_[k_] for f_ in ('%s.ravel()', '%s.flatten()', 'np.ravel(%s)', 'numpy.ravel(%s)')) for k_, ax in enumerate('xyz'))
-               and 'h' in kw, 'all-arrays-are-sources',
-               'target-array', node=pa, file=INT, func='_create_particle_array', detail_bad='target array built with %s' % kw, detail_ok="name='interpolate', the target coordinates")
-    # the smoothing length of the target points is the largest h of the *current* source data: computed, in the call that creates the target array, by a
-    # fold over self.particle_arrays (directly or through a helper method) - a value remembered from an earlier call lags behind in-place changes of h
-    hk = [k.value for k in c[0].keywords if k.arg == 'h'] if c else []
+    # (the target array itself - name, coordinates, h, properties per method - is decided by the model run rule_target_model)
 
-    def origin(e, fn_, depth=0):
-        """how the scalar behind e is obtained: 'fold' (computed now from the arrays), 'stored:<attr>' or 'other'"""
-        if depth > 6:
-            return 'other'
-        if isinstance(e, ast.BinOp):
-            parts = [origin(x, fn_, depth + 1) for x in (e.left, e.right)]
-            parts = [p_ for p_ in parts if p_ != 'shape']
-            return parts[0] if len(parts) == 1 else 'other'
-        if isinstance(e, ast.Call):
-            nm_ = M.call_name(e) or ''
-            if nm_.split('.')[-1] in ('ones_like', 'ones', 'zeros_like'):
-                return 'shape'
-            if nm_.split('.')[-1] in ('full', 'full_like') and len(e.args) >= 2:
-                return origin(e.args[1], fn_, depth + 1)
-            if nm_.startswith('self.') and nm_.count('.') == 1:
+
+class _Filled(object):
+    """model of a numpy array filled with one value: what `scalar * np.ones_like(a)` / np.full(...) give"""
+    def __init__(self, value, like, dtype):
+        self.value, self.like, self.dtype = value, like, dtype
+
+    def __mul__(self, o):
+        return _Filled(self.value * o, self.like, 'float' if isinstance(o, float) else self.dtype) if isinstance(o, (int, float)) else NotImplemented
+    __rmul__ = __mul__
+
+    def __hash__(self):
+        return id(self)
+
+
+def rule_target_model(chk, tree):
+    """Interpolator._create_particle_array interpreted (E8) on model sources, for every method and several orders of the source arrays, twice in a row with the source h
+    changed in between: the target array is called 'interpolate', sits at the flattened target coordinates, has h = the largest h of the *current* source arrays as
+    floats, and carries the properties its method needs (prop; unity for splash_norm; moment/p_sph/prop with strides 16/4/4 for order1)"""
+    import itertools
+    from verif_static import emit as EM, absint as AI
+    raw = M.find_class(tree, 'Interpolator')
+    fn = M.find_func(raw, '_create_particle_array')
+    methods = None
+    for a in raw.body:
+        if isinstance(a, ast.Assign) and compact(a.targets[0]) == 'METHODS':
+            methods = [M.const_str(e) for e in a.value.elts]
+    if not methods:
+        raise AnalysisError('Interpolator.METHODS vanished')
+    WANT = {'order1': [('moment', 16), ('p_sph', 4), ('prop', 4)], 'splash_norm': [('prop', 1), ('unity', 1)]}
+    saved = dict((k, AI.EXTERNAL_CALLS.get(k)) for k in ('numpy.ones_like', 'numpy.zeros_like', 'numpy.full', 'numpy.full_like', 'numpy.ones', 'functools.reduce', 'numpy.ravel',
+                                                         'pysph.base.utils.get_particle_array'))
+    made = []
+
+    def gpa(i, a, k, n, e):
+        props = []
+
+        def addp(i2, a2, k2, n2, e2):
+            props.append((k2.get('name', a2[0] if a2 else None), k2.get('stride', a2[3] if len(a2) > 3 else 1)))
+            return None
+        pa_ = EM.mock(add_property=addp, name=k.get('name'))
+        made.append((dict(k), props))
+        return pa_
+
+    def red(i, a, k, n, e):
+        f_, seq = a[0], a[1]
+        acc = a[2] if len(a) > 2 else None
+        it_ = list(i.iterate(seq, n))
+        if len(a) < 3:
+            acc, it_ = it_[0], it_[1:]
+        for x_ in it_:
+            acc = i.call(f_, [acc, x_], {}, n, e)
+        return acc
+    AI.EXTERNAL_CALLS['numpy.ones_like'] = lambda i, a, k, n, e: _Filled(1, a[0], k.get('dtype', 'like'))
+    AI.EXTERNAL_CALLS['numpy.ones'] = lambda i, a, k, n, e: _Filled(1.0, a[0] if a else k.get('shape'), k.get('dtype', 'float'))
+    AI.EXTERNAL_CALLS['numpy.zeros_like'] = lambda i, a, k, n, e: _Filled(0, a[0], 'like')
+    AI.EXTERNAL_CALLS['numpy.full'] = lambda i, a, k, n, e: _Filled(a[1], a[0], k.get('dtype', 'float' if isinstance(a[1], float) else 'int'))
+    AI.EXTERNAL_CALLS['numpy.full_like'] = lambda i, a, k, n, e: _Filled(a[1], a[0], k.get('dtype', 'like'))
+    AI.EXTERNAL_CALLS['numpy.ravel'] = lambda i, a, k, n, e: ('flat', a[0].attrs.get('tok'))
+    AI.EXTERNAL_CALLS['functools.reduce'] = red
+    AI.EXTERNAL_CALLS['pysph.base.utils.get_particle_array'] = gpa
+
+    def coord(tok):
+        return EM.mock(tok=tok, ravel=lambda i, a, k, n, e: ('flat', tok), flatten=lambda i, a, k, n, e: ('flat', tok), squeeze=lambda i, a, k, n, e: ('squeezed', tok))
+
+    def src(hmax):
+        return EM.mock(h=EM.mock(max=lambda i, a, k, n, e: hmax), properties={'h': 1, 'x': 1}, add_property=lambda i, a, k, n, e: None)
+    bad, und, nrun = None, None, 0
+    try:
+        for m_ in methods:
+            for hs in itertools.permutations((0.3, 0.9, 0.5)):
+                it = EM.interpreter()
+                it.intrinsics[('pysph/base/utils.py', None, 'get_particle_array')] = lambda i_, f_, a_, k_, n_, e_: gpa(i_, a_, k_, n_, e_)
+                arrays = [src(h_) for h_ in hs]
+                obj = EM.instance(it, INT, 'Interpolator', method=m_, METHODS=list(methods))
+                del made[:]
                 try:
-                    h_ = M.find_func(icls, nm_[5:])
-                except Exception:
-                    return 'other'
-                return 'fold' if fold_ok(h_) else 'other'
-            return 'other'
-        if isinstance(e, ast.Name):
-            ds = [a.value for a in ast.walk(fn_) if isinstance(a, ast.Assign) and compact(a.targets[0]) == e.id]
-            if not ds:
-                return 'other'
-            if fold_ok(fn_) and any(isinstance(x, ast.Assign) and compact(x.targets[0]) == e.id and isinstance(x.value, ast.Call) and M.call_name(x.value) == 'max' for x in ast.walk(fn_)):
-                return 'fold'
-            os_ = set(origin(d, fn_, depth + 1) for d in ds)
-            return os_.pop() if len(os_) == 1 else 'other'
-        if isinstance(e, ast.Attribute) and compact(e.value) == 'self':
-            return 'stored:' + e.attr
-        return 'other'
-    og = origin(hk[0], pa) if hk else 'other'
-    chk.decide(og == 'fold', 'all-arrays-are-sources', 'target-h-is-max-source-h', node=pa, file=INT, func='_create_particle_array',
-               detail_bad=('the target smoothing length is read from self.%s, a value stored by an earlier call: after the source h changed in place (next snapshot loaded into the same '
-                           'arrays) new target points get the previous data\'s h' % og.split(':')[1]) if og.startswith('stored:') else
-               'target smoothing length is not the maximum h over all current source arrays', detail_ok='max over all arrays, computed when the target array is created')
+                    # as the constructor does: the arrays are installed, then the target points are created
+                    EM.call(it, obj, '_set_particle_arrays', arrays)
+                    EM.call(it, obj, '_create_particle_array', coord('X'), coord('Y'), coord('Z'))
+                    # the sources change in place (a new snapshot loaded into the same arrays), new points are set
+                    for ar_, h_ in zip(arrays, (0.2, 0.1, 0.4)):
+                        ar_.attrs['h'] = EM.mock(max=(lambda v_: lambda i, a, k, n, e: v_)(h_))
+                    EM.call(it, obj, '_create_particle_array', coord('X2'), coord('Y2'), coord('Z2'))
+                except AI.Unsupported as ex:
+                    und = 'method %s: %s' % (m_, ex)
+                    break
+                nrun += 1
+                if len(made) != 2:
+                    bad = bad or (m_, hs, '%d target arrays created by two calls' % len(made))
+                    continue
+                for (kw, props), toks, hwant in zip(made, (('X', 'Y', 'Z'), ('X2', 'Y2', 'Z2')), (0.9, 0.4)):
+                    h_ = kw.get('h')
+                    hok = isinstance(h_, _Filled) and h_.value == hwant and h_.dtype in ('float', 'np.float64', 'numpy.float64', float)
+                    if kw.get('name') != 'interpolate' or [kw.get(ax) for ax in 'xyz'] != [('flat', t_) for t_ in toks]:
+                        bad = bad or (m_, hs, 'target array built with name=%r at x, y, z = %s' % (kw.get('name'), [kw.get(ax) for ax in 'xyz']))
+                    elif not hok:
+                        bad = bad or (m_, hs, 'with source h maxima %s (then 0.2, 0.1, 0.4) the target h is %s, expected floats equal to %s' % (
+                            list(hs), (h_.value, h_.dtype) if isinstance(h_, _Filled) else h_, hwant))
+                    elif sorted(props) != sorted(WANT.get(m_, [('prop', 1)])):
+                        bad = bad or (m_, hs, 'properties added %s, expected %s' % (sorted(props), sorted(WANT.get(m_, [('prop', 1)]))))
+            if und:
+                break
+    finally:
+        for k, v in saved.items():
+            if v is None:
+                AI.EXTERNAL_CALLS.pop(k, None)
+            else:
+                AI.EXTERNAL_CALLS[k] = v
+    if und:
+        chk.undecided('target-points', 'target-array:model-run', node=fn, file=INT, func='_create_particle_array', detail='not interpretable on the model: ' + und)
+    else:
+        chk.decide(bad is None, 'target-points', 'target-array:model-run', node=fn, file=INT, func='_create_particle_array',
+                   detail_bad='method %s, sources %s: %s' % (bad or ('', '', '')), detail_ok='%d runs (every method x every order of three sources, two calls each)' % nrun)
+    return nrun
 
 
 def rule_method_table(chk, tree):
@@ -279,7 +346,7 @@ def rule_method_table(chk, tree):
                 for s in M.str_consts(c):
                     out.add(s)
         return out
-    for fname in ('_create_particle_array', '_compile_acceleration_eval', 'interpolate'):
+    for fname in ('_compile_acceleration_eval', 'interpolate'):
         fn = M.find_func(icls, fname)
         got = mentioned(fn)
         has_else = True
@@ -572,46 +639,7 @@ def rule_targets_and_groups(chk, tree):
     """the target points get h = max source h as a float for every point; densities of the sources are computed for ghosts too (periodic images) before they are used;
     the neighbour structure of an SPHEvaluator is rebuilt with the domain it was constructed with"""
     icls = interp_class(tree)
-    cpa = M.find_func(icls, '_create_particle_array')
-    gpa = [c for c in M.calls(cpa) if M.call_name(c) == 'get_particle_array']
-    ok, why = False, 'no get_particle_array call'
-    if len(gpa) == 1:
-        kw = dict((k.arg, k.value) for k in gpa[0].keywords)
-        hv = kw.get('h')
-        if isinstance(hv, ast.Name):
-            ds = [a.value for a in ast.walk(cpa) if isinstance(a, ast.Assign) and compact(a.targets[0]) == hv.id]
-            hv = ds[-1] if ds else hv
-
-        def is_hmax(e, depth=0):
-            if depth > 6:
-                return False
-            if isinstance(e, ast.Name):
-                ds2 = [a.value for a in ast.walk(cpa) if isinstance(a, ast.Assign) and compact(a.targets[0]) == e.id]
-                # the fold written in place (a helper inlined): the accumulator of `acc = max(array.h.max(), acc)` over self.particle_arrays, seeded with a constant
-                if fold_ok(cpa) and any(isinstance(d, ast.Call) and M.call_name(d) == 'max' and e.id in [compact(x) for x in d.args] for d in ds2):
-                    return all(isinstance(d, (ast.Constant, ast.UnaryOp)) or (isinstance(d, ast.Call) and M.call_name(d) == 'max') for d in ds2)
-                return bool(ds2) and all(is_hmax(d, depth + 1) for d in ds2)
-            if isinstance(e, ast.Call) and (M.call_name(e) or '').startswith('self.') and (M.call_name(e) or '').count('.') == 1:
-                try:
-                    return fold_ok(M.find_func(icls, M.call_name(e)[5:]))
-                except Exception:
-                    return False
-            return False
-        why = 'h of the target points is %s' % (compact(hv) if hv is not None else None)
-        if isinstance(hv, ast.BinOp) and isinstance(hv.op, ast.Mult):
-            # hmax * ones_like(x): float scalar times an array keeps the float
-            a_, b_ = hv.left, hv.right
-            for sc, arr in ((a_, b_), (b_, a_)):
-                if is_hmax(sc) and isinstance(arr, ast.Call) and (M.call_name(arr) or '').split('.')[-1] in ('ones_like', 'ones'):
-                    ok = True
-        elif isinstance(hv, ast.Call) and (M.call_name(hv) or '').split('.')[-1] in ('full', 'full_like'):
-            kws = dict((k.arg, compact(k.value)) for k in hv.keywords)
-            nm = (M.call_name(hv) or '').split('.')[-1]
-            ok = len(hv.args) >= 2 and is_hmax(hv.args[1]) and (nm == 'full' or kws.get('dtype') in ('float', 'np.float64', 'numpy.float64', 'np.double'))
-            if not ok:
-                why += ': full_like takes the dtype of the coordinate array, so integer coordinates truncate h (to 0 for h < 1)'
-    chk.decide(ok, 'target-points', 'h-is-the-largest-source-h', node=cpa, file=INT, func='_create_particle_array', detail_bad=why,
-               detail_ok='h = max source h (float) for every target point')
+    # (h of the target points: rule_target_model)
     # order1: source densities before the moments, in a group that includes ghosts
     cae = M.find_func(icls, '_compile_acceleration_eval')
     groups = [c for c in M.calls(cae) if M.call_name(c) == 'Group']
@@ -698,7 +726,16 @@ def main(chk):
     rule_normalised(chk, tree)
     rule_sources(chk, tree)
     rule_method_table(chk, tree)
+    chk.floor("model runs of _create_particle_array", rule_target_model(chk, tree), 30)
     rule_rebinding(chk, tree)
+    # the evaluator the interpolator runs on (anchored file acceleration_eval.py): each equation's initialise / post-loop code once per destination however many sources it has
+    # (a normalising post_loop applied once per source divides twice), and the destination loop bounds are the array's current size (rules shared with C03)
+    import importlib.util
+    spec3 = importlib.util.spec_from_file_location('c03mod', os.path.join(os.path.dirname(os.path.abspath(__file__)), 'c03.py'))
+    c03 = importlib.util.module_from_spec(spec3)
+    spec3.loader.exec_module(c03)
+    c03.rule_regroup(chk)
+    c03.rule_wrapper(chk, c03.MT.parse_template(c03.TPL))
     rule_order1(chk, tree)
     rule_targets_and_groups(chk, tree)
     rule_own_evaluator(chk, tree)
